@@ -125,10 +125,10 @@ func sustained(idx int64, r *rand.Rand) {
 	floor := spec.Floor()
 	B := bound(spec, e0)
 	capTotal := 50*B + 200
-	rtt := limgen.Baseline(l) + 1 + r.Int64N(1000)
-	if rtt < 1 {
-		rtt = 1
-	}
+	// unique, strictly increasing RTTs make a probe observable as a change of the baseline - but only while they are
+	// exactly representable as float64 (the algorithms convert), so the run starts from a small value whatever the
+	// baseline left by the prefix is (a first sample below the baseline merely lowers it and is not "effective")
+	rtt := 1000 + r.Int64N(1000000)
 	eff, total, extra := 0, 0, 0
 	for total < capTotal {
 		before := l.EstimatedLimit()
